@@ -1,3 +1,4 @@
 import Lemmas.Assoc
 import Lemmas.Arith
 import Lemmas.Bank
+import Lemmas.Votes
